@@ -37,3 +37,49 @@ func TestGetResultIsAPrivateCopy(t *testing.T) {
 		db.Close()
 	}
 }
+
+// obligation leveldb.(*DB).get:post(C20:result-is-a-private-copy)#ret 1 (the transaction's own write buffer)
+func TestTransactionGetResultIsAPrivateCopy(t *testing.T) {
+	db, err := leveldb.Open(storage.NewMemStorage(), nil)
+	must(t, err)
+	defer db.Close()
+	tr, err := db.OpenTransaction()
+	must(t, err)
+	want := bytes.Repeat([]byte("value-"), 20)
+	must(t, tr.Put([]byte("k"), want, nil))
+	v1, err := tr.Get([]byte("k"), nil)
+	must(t, err)
+	for i := range v1 {
+		v1[i] = 'X'
+	}
+	v2, err := tr.Get([]byte("k"), nil)
+	must(t, err)
+	if !bytes.Equal(v2, want) {
+		t.Errorf("modifying the slice returned by Transaction.Get changed what the transaction returns: %q...", v2[:12])
+	}
+	must(t, tr.Commit())
+	v3, err := db.Get([]byte("k"), nil)
+	must(t, err)
+	if !bytes.Equal(v3, want) {
+		t.Errorf("modifying the slice returned by Transaction.Get changed what was committed: %q...", v3[:12])
+	}
+}
+
+// obligation leveldb.(*DB).get:post(C20:result-is-a-private-copy)#ret 2 (write buffer / frozen buffer)
+func TestGetFromWriteBufferIsAPrivateCopy(t *testing.T) {
+	db, err := leveldb.Open(storage.NewMemStorage(), nil)
+	must(t, err)
+	defer db.Close()
+	want := bytes.Repeat([]byte("value-"), 20)
+	must(t, db.Put([]byte("k"), want, nil))
+	v1, err := db.Get([]byte("k"), nil)
+	must(t, err)
+	for i := range v1 {
+		v1[i] = 'X'
+	}
+	v2, err := db.Get([]byte("k"), nil)
+	must(t, err)
+	if !bytes.Equal(v2, want) {
+		t.Errorf("modifying the slice returned by Get changed what the DB returns: %q...", v2[:12])
+	}
+}
